@@ -135,6 +135,17 @@ def kinds_in(v, acc=None, depth=0):
 # plain data
 
 
+def _holds_set(v):
+    # the order in which a set is listed is unspecified: two dumps need not agree
+    if isinstance(v, (set, frozenset)):
+        return True
+    if isinstance(v, (list, tuple)):
+        return any(_holds_set(x) for x in v)
+    if isinstance(v, dict):
+        return any(_holds_set(x) for x in v.values())
+    return False
+
+
 def check_plain(value_factory):
     jc = JC()
     v = value_factory
@@ -152,6 +163,25 @@ def check_plain(value_factory):
             json.dumps(d)
         except Exception as ex:
             fail("C15/dump-output-not-serialisable", "json.dumps failed on dump output: %s" % ex, repr(d)[:300])
+    # the 'ignore' argument names attributes of beans: plain data has none, whatever its values are
+    names = []
+
+    def collect(x):
+        if isinstance(x, str) and x and len(names) < 4:
+            names.append(x)
+        elif isinstance(x, (list, tuple, set, frozenset)):
+            for y in x:
+                collect(y)
+        elif isinstance(x, dict):
+            for y in x.values():
+                collect(y)
+    collect(v)
+    try:
+        d_ign = jc.dump(v, ignore=names + ["password", "x"])
+    except Exception as ex:
+        fail("C15/dump-raised", "dump(..., ignore=%r) raised %s: %s" % (names, type(ex).__name__, ex), repr(v)[:300])
+    if snap_noid(d_ign) != snap_noid(d) and not _holds_set(v):
+        fail("C15/ignore-changes-plain-data", "dump(x, ignore=%r) = %r differs from dump(x) = %r" % (names + ["password", "x"], d_ign, d), repr(v)[:300])
     before_d = snap(d)
     try:
         back = jc.load(d)
@@ -256,7 +286,9 @@ def oracle_small(case):
 
 prims = st.one_of(
     st.none(), st.booleans(), st.integers(), st.integers(-2 ** 70, 2 ** 70), st.sampled_from(PRIMS),
-    st.floats(), st.text(gen.TEXT_ALPHABET, max_size=5))
+    st.floats(), st.text(gen.TEXT_ALPHABET, max_size=5),
+    # str values a file system or a lenient decoder hands out: unpaired surrogates are characters of a str too
+    st.sampled_from(["file-\udce9.txt", "\ud800", "a\udfffb", "password", "_ignore", "x"]))
 hashables = st.recursive(prims, lambda c: st.one_of(st.lists(c, max_size=2).map(tuple), st.lists(c, max_size=2).map(frozenset)), max_leaves=4)
 keys = st.one_of(st.text(gen.TEXT_ALPHABET, max_size=3).filter(lambda k: k != "__jsonclass__"), st.integers(-3, 3), st.none(), st.booleans(),
                  st.floats(allow_nan=False), st.tuples(st.integers(0, 2)))
